@@ -124,7 +124,7 @@ let run_gen ~(xmode : bool) (path : string) =
   (* coverage (extended matrix): every msgServer method of the liquidation / auction / esm / rewards / collector /
      tokenmint modules (from the regenerated registry) was run where its uncontrolled run succeeds, under the breaker,
      with inactive prices, and (when it has an amount field) with boundary amounts under the breaker *)
-  if xmode && Sys.getenv_opt "VERIF_CASE" = None && not !focused then begin
+  if xmode && Sys.getenv_opt "VERIF_CASE" = None && !cases > 100 && not !focused then begin
     if !notes > 0 then
       mismatch ~case:"-" ~step:0 ~field:"fixture" ~model:"extended-fixture-complete" ~impl:(Printf.sprintf "%d-notes-in-trace" !notes);
     L.iter (fun hn ->
